@@ -669,27 +669,39 @@ UnitsMap defineUnitsMap(const UnitsPtr &units)
     return unitsMap;
 }
 
-bool Units::requiresImports() const
+bool unitsRequireImports(const UnitsConstPtr &units, std::vector<const Units *> &visitedUnits)
 {
     // Function to check child unit dependencies for imports.
-    if (isImport()) {
+    // Note: units may (wrongly) reference one another in a circular fashion,
+    //       so keep track of the units that we have already visited.
+    if (units->isImport()) {
         return true;
     }
 
-    auto model = owningModel(shared_from_this());
+    visitedUnits.push_back(units.get());
+
+    auto model = owningModel(units);
     if (model != nullptr) {
-        for (size_t u = 0; u < unitCount(); ++u) {
-            const std::string ref = unitAttributeReference(u);
+        for (size_t u = 0; u < units->unitCount(); ++u) {
+            const std::string ref = units->unitAttributeReference(u);
             auto child = model->units(ref);
-            if ((child == nullptr) || (this == child.get())) {
+            if ((child == nullptr)
+                || (std::find(visitedUnits.begin(), visitedUnits.end(), child.get()) != visitedUnits.end())) {
                 continue;
             }
-            if (child->requiresImports()) {
+            if (unitsRequireImports(child, visitedUnits)) {
                 return true;
             }
         }
     }
     return false;
+}
+
+bool Units::requiresImports() const
+{
+    std::vector<const Units *> visitedUnits;
+
+    return unitsRequireImports(shared_from_this(), visitedUnits);
 }
 
 bool Units::compatible(const UnitsPtr &units1, const UnitsPtr &units2)
